@@ -48,10 +48,25 @@ theorem evalQuery_append (cfg : Cfg) (l ext : Log) (t : Nat) (q : Query) (ht : t
   cases q with
   | get k => simp only [evalQuery]; exact resolveOn_append l ext t k ht
   | getAll ks =>
-    simp only [evalQuery, fun k => resolveOn_append l ext t k ht]
+    simp only [evalQuery, getAllEntries, fun k => resolveOn_append l ext t k ht]
   | scan spec limit => simp only [evalQuery]; rw [viewGet_ext l ext t ht]
   | history k => simp only [evalQuery]; rw [historyOf_append l ext k t ht]
   | count pfx => simp only [evalQuery]; rw [viewGet_ext l ext t ht]
+
+theorem getAllEntries_append (l ext : Log) (t : Nat) (ks : List Bytes) (ht : t ≤ l.length) :
+    getAllEntries (l ++ ext) t ks = getAllEntries l t ks := by
+  simp only [getAllEntries, fun k => resolveOn_append l ext t k ht]
+
+/-- the code reads every key of a `GetAll` from the snapshot (extracted fact `Gen.dbGetAllLooksUpInSnapshot`). -/
+theorem getAllSrc_snap (snapTs liveTs : Nat) : getAllSrc snapTs liveTs = snapTs := by
+  simp [getAllSrc, ImmuModel.Gen.dbGetAllLooksUpInSnapshot]
+
+/-- one loop iteration of `GetAll` on the snapshot = the next key of the one-view answer. -/
+theorem getAllLookup_step (log : Log) (t : Nat) (k : Bytes) (rest : List Bytes) (acc : List (Bytes × Ver)) :
+    getAllLookup log t k acc ++ getAllEntries log t rest = acc ++ getAllEntries log t (k :: rest) := by
+  unfold getAllLookup getAllEntries
+  rw [List.filterMap_cons]
+  cases resolveOn log t k <;> simp
 
 theorem presHold_append (l ext : Log) (t : Nat) (pre : List Pre) (ht : t ≤ l.length) :
     presHold (l ++ ext) t pre = presHold l t pre := by
@@ -89,6 +104,9 @@ def ClOK (d : Db) (cl : Client) : Prop :=
       ∃ ws pre, cl.op = .write ws pre ∧ d.log[id - 1]? = some ws ∧ presHold d.log (id - 1) pre = true
   | .rInvoked c0 => cl.inv < d.now ∧ cmtAt d cl.inv = c0 ∧ ∃ q, cl.op = .read q
   | .rHalf c0 t1 _ _ _ => cl.inv < d.now ∧ cmtAt d cl.inv = c0 ∧ c0 ≤ t1 ∧ t1 ≤ d.idx ∧ ∃ q, cl.op = .read q
+  -- a `GetAll` in progress: what has been collected plus what the remaining keys give ON THE SNAPSHOT is the one-view answer
+  | .rSnap c0 t todo acc => cl.inv < d.now ∧ cmtAt d cl.inv = c0 ∧ c0 ≤ t ∧ t ≤ d.idx ∧ t ≤ d.log.length ∧
+      ∃ ks, cl.op = .read (.getAll ks) ∧ acc ++ getAllEntries d.log t todo = getAllEntries d.log t ks
 
 structure DInv (cfg : Cfg) (d : Db) : Prop where
   idx_le : d.idx ≤ d.committed
@@ -186,6 +204,13 @@ theorem ClOK.mono {d e : Db} {cl : Client} (hl : d.cmt.length = d.now) (hev : Ev
     obtain ⟨h1, h2, h3, h4, h5⟩ := h
     exact ⟨by show cl.inv < d.now + 1; omega, by rw [cmtAt_book_old d e hl _ h1]; exact h2, h3,
       by show t1 ≤ e.idx; have := hev.idx_ge; omega, h5⟩
+  · rename_i c0 t todo acc hp; rw [hp] at h; simp only [] at h
+    obtain ⟨h1, h2, h3, h4, h5, ks, h6, h7⟩ := h
+    refine ⟨by show cl.inv < d.now + 1; omega, by rw [cmtAt_book_old d e hl _ h1]; exact h2, h3,
+      by show t ≤ e.idx; have := hev.idx_ge; omega, ?_, ks, h6, ?_⟩
+    · show t ≤ e.log.length; rw [hext, List.length_append]; omega
+    · show acc ++ getAllEntries e.log t todo = getAllEntries e.log t ks
+      rw [hext, getAllEntries_append _ ext t todo h5, getAllEntries_append _ ext t ks h5]; exact h7
 
 theorem dinv_frame (cfg : Cfg) (d e : Db) (h : DInv cfg d) (hev : Evolves d e)
     (h1 : e.idx ≤ e.committed) (hhub : e.hub = e.idx) (h2 : e.committed ≤ e.log.length)
@@ -330,6 +355,7 @@ theorem dinv_step (cfg : Cfg) (d : Db) (s : DbStep) (hs : ∀ n, s ≠ .compact 
       | wPre id => simp only [dbStepCore, hc, hp]; exact dinv_noop cfg d h
       | rInvoked c0 => simp only [dbStepCore, hc, hp]; exact dinv_noop cfg d h
       | rHalf a b c' e f => simp only [dbStepCore, hc, hp]; exact dinv_noop cfg d h
+      | rSnap a b c' e => simp only [dbStepCore, hc, hp]; exact dinv_noop cfg d h
   | precommit c =>
     cases hc : d.clients[c]? with
     | none => simp only [dbStepCore, hc]; exact dinv_noop cfg d h
@@ -408,6 +434,7 @@ theorem dinv_step (cfg : Cfg) (d : Db) (s : DbStep) (hs : ∀ n, s ≠ .compact 
       | wPre id => simp only [dbStepCore, hc, hp]; exact dinv_noop cfg d h
       | rInvoked c0 => simp only [dbStepCore, hc, hp]; exact dinv_noop cfg d h
       | rHalf a b c' e f => simp only [dbStepCore, hc, hp]; exact dinv_noop cfg d h
+      | rSnap a b c' e => simp only [dbStepCore, hc, hp]; exact dinv_noop cfg d h
   | wdone c =>
     cases hc : d.clients[c]? with
     | none => simp only [dbStepCore, hc]; exact dinv_noop cfg d h
@@ -445,6 +472,7 @@ theorem dinv_step (cfg : Cfg) (d : Db) (s : DbStep) (hs : ∀ n, s ≠ .compact 
       | wInvoked => simp only [dbStepCore, hc, hp]; exact dinv_noop cfg d h
       | rInvoked c0 => simp only [dbStepCore, hc, hp]; exact dinv_noop cfg d h
       | rHalf a b c' e f => simp only [dbStepCore, hc, hp]; exact dinv_noop cfg d h
+      | rSnap a b c' e => simp only [dbStepCore, hc, hp]; exact dinv_noop cfg d h
   | rdone c choice =>
     cases hc : d.clients[c]? with
     | none => simp only [dbStepCore, hc]; exact dinv_noop cfg d h
@@ -514,12 +542,17 @@ theorem dinv_step (cfg : Cfg) (d : Db) (s : DbStep) (hs : ∀ n, s ≠ .compact 
                       Nat.le_refl _, _, rfl⟩
                   · exact fun _ hr => Or.inl hr
             | getAll ks =>
+              -- only the snapshot is taken: nothing is answered yet
               simp only [dbStepCore, hc, hp, hop, hhe, hcond, ↓reduceIte]
               have hlo : c0 ≤ clamp c0 d.idx choice := by unfold clamp; omega
               have hhi : clamp c0 d.idx choice ≤ d.idx := by unfold clamp; omega
-              apply fin
-              refine ⟨tfact _ _ hlo hhi, ?_⟩
-              unfold ResOK; simp only [hop]; exact ⟨by omega, trivial⟩
+              apply dinv_set cfg d (setClient d c { phase := .rSnap c0 (clamp c0 d.idx choice) ks [], op := .read (.getAll ks), inv := cl.inv }) h
+                ⟨rfl, rfl, ⟨[], by simp [setClient]⟩, Nat.le_refl _, Nat.le_refl _⟩ h.idx_le hhe h.cm_le
+                c cl _ hc rfl
+              · unfold ClOK; simp only []
+                exact ⟨by show cl.inv < d.now + 1; omega, by rw [cmtAt_book_old d _ hl _ k1]; exact k2, hlo, hhi,
+                  by show clamp c0 d.idx choice ≤ d.log.length; omega, ks, rfl, by simp⟩
+              · exact fun _ hr => Or.inl hr
             | scan spec limit =>
               simp only [dbStepCore, hc, hp, hop, hhe, hcond, ↓reduceIte]
               have hlo : c0 ≤ clamp c0 d.idx choice := by unfold clamp; omega
@@ -570,6 +603,36 @@ theorem dinv_step (cfg : Cfg) (d : Db) (s : DbStep) (hs : ∀ n, s ≠ .compact 
             apply fin
             refine ⟨tfact _, ?_⟩
             unfold ResOK; simp only [hop]; exact hidxlog
+      | rSnap c0 t todo acc =>
+        unfold ClOK at hclok
+        rw [hp] at hclok
+        simp only [] at hclok
+        obtain ⟨k1, k2, k3, k4, k5, ks, hopq, hacc⟩ := hclok
+        cases todo with
+        | cons k rest =>
+          -- one more key looked up — in the SNAPSHOT (`getAllSrc_snap`), whatever has been committed / indexed meanwhile
+          simp only [dbStepCore, hc, hp, hopq]
+          apply dinv_set cfg d (setClient d c { phase := .rSnap c0 t rest (getAllLookup d.log (getAllSrc t d.idx) k acc), op := .read (.getAll ks), inv := cl.inv }) h
+            ⟨rfl, rfl, ⟨[], by simp [setClient]⟩, Nat.le_refl _, Nat.le_refl _⟩ h.idx_le hhe h.cm_le
+            c cl _ hc rfl
+          · unfold ClOK; simp only []
+            refine ⟨by show cl.inv < d.now + 1; omega, by rw [cmtAt_book_old d _ hl _ k1]; exact k2, k3, k4, k5, ks, rfl, ?_⟩
+            show getAllLookup d.log (getAllSrc t d.idx) k acc ++ getAllEntries d.log t rest = getAllEntries d.log t ks
+            rw [getAllSrc_snap, getAllLookup_step]; exact hacc
+          · exact fun _ hr => Or.inl hr
+        | nil =>
+          -- the loop is over: the collected entries are returned; they are the one-view answer at the snapshot's ts
+          simp only [dbStepCore, hc, hp, hopq]
+          apply fin
+          refine ⟨⟨by show cl.inv ≤ d.now; omega, by show d.now < d.now + 1; omega, ?_⟩, ?_⟩
+          · simp only []
+            rw [cmtAt_book_old d _ hl _ k1, cmtAt_book_new d _ hl, k2]
+            exact ⟨k3, by show t ≤ d.committed; have := h.idx_le; omega⟩
+          · unfold ResOK
+            simp only [hopq]
+            refine ⟨k5, ?_⟩
+            simp only [evalQuery]
+            rw [← hacc]; simp [getAllEntries]
       | idle => simp only [dbStepCore, hc, hp]; exact dinv_noop cfg d h
       | wInvoked => simp only [dbStepCore, hc, hp]; exact dinv_noop cfg d h
       | wPre id => simp only [dbStepCore, hc, hp]; exact dinv_noop cfg d h
